@@ -479,10 +479,11 @@ def run(ctx):
                     if not okp:
                         ctx.fail('property', 'lp.loads(lp.dumps(cqm))', 'labels forming a two-word LP keyword (subject to / such that)',
                                  f'{[nm for nm, _ in names]} ({kind}, {layout}): written, but {msg}',
-                                 repro=PRE + dsrc + 'back = lp.loads(lp.dumps(cqm))\n'
-                                 'assert [(v, back.vartype(v), back.lower_bound(v), back.upper_bound(v)) for v in back.variables] == '
+                                 repro=PRE + dsrc + 'try:\n    text = lp.dumps(cqm)\nexcept ValueError:\n    text = None      # refused: fine\n'
+                                 'if text is not None:\n    back = lp.loads(text)\n'
+                                 '    assert [(v, back.vartype(v), back.lower_bound(v), back.upper_bound(v)) for v in back.variables] == '
                                  '[(v, cqm.vartype(v), cqm.lower_bound(v), cqm.upper_bound(v)) for v in cqm.variables]\n'
-                                 'assert coeffs(back.objective) == coeffs(cqm.objective) and list(back.constraints) == list(cqm.constraints)\n',
+                                 '    assert coeffs(back.objective) == coeffs(cqm.objective) and list(back.constraints) == list(cqm.constraints)\n',
                                  detail=dict(text=text[:400]))
                     elif 'Subject' not in (f1, f2):
                         lines.append('load ' + text.encode().hex()); expect.append(('REAL', (bvars, bobj, bcons))); meta.append(('lp.loads', text))
